@@ -2021,10 +2021,19 @@ LEVEL_TEXT = ('Lean 4 theorems over a generic interleaving semantics (shared com
               'utils.memorize - objs_isolated / objs_results (results are an explicit schedule-independent function) and '
               'lazy_objects_private (with the exact condition: no lazy object reached through the shared context); negative '
               'witnesses for partial publication (pre-fix FrozenDict hash), parked per-call state, shared lazy objects. '
+              'Raw mutable host values stored in the shared context (Model/SharedList: orderBy over a shared Python list, one '
+              'step per key-selector dispatch): the copying sort of the code is read-only, so lists_isolated / lists_results '
+              '(every schedule: lists unchanged, results = an explicit function of the initial lists); sorting the shared '
+              'object in place interferes (inplace_sort_interferes: a concurrent reader sees the list CPython empties during '
+              'list.sort; inplace_sort_changes_shared_alone; inplace_restore_interferes: restoring the order afterwards only '
+              'repairs the context, not the reader). '
               'C18Gen.no_shared_writes: every write site of the live yaql sources (AST walk, regenerated per run) is in an '
               'allowed class. The real code runs under a deterministic thread scheduler at dispatch / iterator-step / '
               'key-hash granularity (exhaustive, <=3 preemptions, random) and at line granularity (seeded) against the sequential baseline, the shared '
               'context snapshot, the Lean machine under the same trace, and free-running under a 1 us switch interval; '
+              'a sweep of every library function over every parameter that admits a raw list / dict / set runs alone and 2-3 '
+              'at a time on the SAME host object (variable of the shared context, unconverted document, host function result), '
+              'snapshot of the variable values included; '
               'with instrumented context classes, generated programs of the core fragment evaluated alone and 2-4 at a time '
               'write only contexts their own evaluation created (never the shared one, never another thread\'s, never one '
               'that already has a child), and the tree of contexts created / names written is the store model\'s.')
